@@ -602,6 +602,47 @@ def d5(ctx, prog, cls, entries, acc, count, guard, extra_protected=(), rule='C01
 
 
 # ---------------------------------------------------------------------------------------------- run
+
+def d10(ctx, prog):
+    """the batches are read-only for the distinguishers: no update path (update, _check, _initialize, _update, _accumulate, the kernels they
+    dispatch to) writes into storage that its caller passed in as traces / data (ownership engine, call effects mapped through
+    the kernels' parameters).  Feeding the same arrays again - another batching of the same history - must see the same values."""
+    from .. import alias, universe
+    allc, concrete = universe.distinguisher_classes(prog)
+    n = 0
+    seen = set()
+    for ci in concrete + universe.mixin_classes(prog):
+        eff = alias.Effects(prog, ci)
+        for mname in ('update', '_check', '_initialize', '_update', '_accumulate'):
+            f = prog.resolve_method(ci, mname)
+            if f is None or (f.key, ci.key) in seen:
+                continue
+            seen.add((f.key, ci.key))
+            if f.key in {k for k, _ in seen if False}:
+                continue
+            batch_params = {p for p in f.params if p in ('traces', 'data')}
+            if not batch_params:
+                continue
+            n += 1
+            bad = []
+            for st, desc, cl in eff.writes(f):
+                if cl in (alias.FRESH, alias.UNKNOWN, None) or cl[0] != 'alias':
+                    continue
+                hit = sorted(r[6:] for r in cl[1] if r.startswith('param:') and r[6:] in batch_params)
+                if hit:
+                    bad.append((st, desc, hit))
+            key = f'{f.key}::batch arrays read-only'
+            if (f.key, 'reported') in seen:
+                continue
+            if bad:
+                seen.add((f.key, 'reported'))
+                st, desc, hit = bad[0]
+                ctx.fail('C01-D10', key, f'{desc} (`{norm(st)[:70]}`) writes into the caller\'s `{hit[0]}` array: the batch is changed by being processed, so the same array fed again '
+                         '(another batching of the same traces, a second distinguisher) no longer holds the same values', f.where(st))
+            else:
+                ctx.ok('C01-D10', key, 'no write reaches the storage of the traces / data arguments', f.where())
+    return n
+
 def run(ctx, prog):
     ctx.rule('C01-D1', 'every accumulator write on the update path is `+=` of a term that reads no running state, is not '
                        'conditioned on running state / batch length / trace index, and happens exactly once per accepted path')
@@ -724,3 +765,5 @@ def run(ctx, prog):
     ctx.floor('accumulator store statements judged', total_stores, 60)
     from .. import kernelvalues as _kv
     ctx.floor('kernel value cases interpreted', _kv.clause(ctx, prog, 'C01-D9', ('partitioned', 'template')), 20)
+    ctx.rule('C01-D10', 'the batches are read-only: no update path (kernels included) writes into the storage of its traces / data arguments')
+    ctx.floor('update-path functions judged for writes to the batch', d10(ctx, prog), 10)
